@@ -4,6 +4,7 @@ cd /verif
 for d in seeded/*/; do
   id=$(basename $d); prop=${id%%-*}
   case "$1" in "") ;; *) case "$prop" in $1) ;; *) continue;; esac;; esac
+  if grep -q '"superseded"' /verif/${d}meta.json; then echo "$id superseded"; continue; fi
   if git -C /repo apply --check /verif/${d}patch.diff 2>/dev/null; then
     git -C /repo apply /verif/${d}patch.diff
     r=$(timeout 2400 ./check $prop 2>&1 | grep -v KNOWN-FINDING | tail -1)
